@@ -1191,7 +1191,8 @@ static void env_values(const char *self)
 					int t = sop_target[seq[k]];
 					if (t >= 0)
 						cur = t;
-					o += snprintf(expect + o, sizeof expect - o, " %d:%s/%d", t < 0, cur ? "gnutls" : "openssl", cur ? JWT_CRYPTO_OPS_GNUTLS : JWT_CRYPTO_OPS_OPENSSL);
+					/* ... and the provider in force works (an HS256 and an ES256 round trip in the child): ":11" */
+					o += snprintf(expect + o, sizeof expect - o, " %d:%s/%d:11", t < 0, cur ? "gnutls" : "openssl", cur ? JWT_CRYPTO_OPS_GNUTLS : JWT_CRYPTO_OPS_OPENSSL);
 				}
 				sw_transitions += 2;
 				vf_obs_str(buf);
@@ -1222,6 +1223,33 @@ static void enumerate(void)
 	}
 }
 
+/* in the --print-provider child: does the provider in force produce a token and accept it? (0: HS256 with an oct key, 1: ES256) */
+static int child_roundtrip(int ec)
+{
+	static const char OCTJ[] = "{\"kty\":\"oct\",\"k\":\"AAECAwQFBgcICQoLDA0ODxAREhMUFRYXGBkaGxwdHh8gISIjJCUmJygpKissLS4v\"}";
+	static char *ecj;
+	if (ec && !ecj) {
+		vk_load();
+		ecj = vk_jwk_text(vk_get("p256a"), 1, NULL, NULL);
+	}
+	jwk_set_t *set = jwks_create(ec ? ecj : OCTJ);
+	const jwk_item_t *it = set ? jwks_item_get(set, 0) : NULL;
+	int ok = 0;
+	if (it && !jwks_item_error(it)) {
+		jwt_builder_t *b = jwt_builder_new();
+		jwt_checker_t *c = jwt_checker_new();
+		if (!jwt_builder_setkey(b, ec ? JWT_ALG_ES256 : JWT_ALG_HS256, it) && !jwt_checker_setkey(c, ec ? JWT_ALG_ES256 : JWT_ALG_HS256, it)) {
+			char *t = jwt_builder_generate(b);
+			ok = t && jwt_checker_verify(c, t) == 0;
+			free(t);
+		}
+		jwt_builder_free(b);
+		jwt_checker_free(c);
+	}
+	jwks_free(set);
+	return ok;
+}
+
 int main(int argc, char **argv)
 {
 	if (argc >= 2 && !strcmp(argv[1], "--print-provider")) {
@@ -1229,7 +1257,7 @@ int main(int argc, char **argv)
 		printf("%s", jwt_get_crypto_ops());
 		for (int i = 2; i < argc; i++) {
 			int rc = argv[i][0] == '#' ? jwt_set_crypto_ops_t((jwt_crypto_provider_t)atoi(argv[i] + 1)) : jwt_set_crypto_ops(argv[i]);
-			printf(" %d:%s/%d", rc != 0, jwt_get_crypto_ops(), (int)jwt_get_crypto_ops_t());
+			printf(" %d:%s/%d:%d%d", rc != 0, jwt_get_crypto_ops(), (int)jwt_get_crypto_ops_t(), child_roundtrip(0), child_roundtrip(1));
 		}
 		printf("\n");
 		return 0;
